@@ -239,7 +239,7 @@ Definition table (st : pstate) : parser pstate :=
 
 (* document.rs: parse_comment / parse_ws / parse_newline *)
 Definition parse_comment (st : pstate) : parser pstate :=
-  pmap (on_ws st) (span_ (comment ;;; line_ending)).
+  pmap (on_ws st) (span_ (comment ;;; context line_ending)).
 Definition parse_ws (st : pstate) : parser pstate := pmap (on_ws st) (span_ ws).
 Definition parse_newline (st : pstate) : parser pstate := pmap (on_ws st) (span_ newline).
 
